@@ -97,6 +97,28 @@ fn lookup(d: &dyn Dictionary, k: &[u16], n: usize, fuzzy: bool) -> Vec<Obs> {
     d.lookup_first_n_phrases(&syls(k), n, strat(fuzzy)).iter().map(obs).collect()
 }
 
+/// the provided trait methods `lookup_first_phrase` / `lookup_all_phrases` (`dictionary/mod.rs`)
+fn first_phrase(d: &dyn Dictionary, k: &[u16], fuzzy: bool) -> Vec<Obs> {
+    d.lookup_first_phrase(&syls(k), strat(fuzzy)).iter().map(obs).collect()
+}
+
+fn all_phrases(d: &dyn Dictionary, k: &[u16], fuzzy: bool) -> Vec<Obs> {
+    d.lookup_all_phrases(&syls(k), strat(fuzzy)).iter().map(obs).collect()
+}
+
+/// ORACLE: "the first phrase" is the head of the full answer, "all phrases" is the full answer
+fn provided_methods_fail(d: &dyn Dictionary, k: &[u16], fz: bool, full: &[Obs]) -> Option<String> {
+    let fp = first_phrase(d, k, fz);
+    if fp[..] != full[..1.min(full.len())] {
+        return Some(format!("lookup_first_phrase {} fuzzy={}: got {} but the full answer is {}", key_s(k), fz, obs_s(&fp), obs_s(full)));
+    }
+    let ap = all_phrases(d, k, fz);
+    if ap[..] != full[..] {
+        return Some(format!("lookup_all_phrases {} fuzzy={}: got {} but lookup_first_n_phrases(usize::MAX) is {}", key_s(k), fz, obs_s(&ap), obs_s(full)));
+    }
+    None
+}
+
 fn entries(d: &dyn Dictionary) -> Vec<(Key, Obs)> {
     d.entries().map(|(k, p)| (k.iter().map(|s| s.to_u16()).collect(), obs(&p))).collect()
 }
@@ -410,6 +432,9 @@ fn check_triebuf(cx: &mut Ctx, kind: &str, d: &dyn Dictionary, r: &Ref, tr: &Tra
             if &lookup(d, k, usize::MAX, fz) != full {
                 cx.fail("new", format!("{kind} [{hist}] lookup {} fuzzy={} is not stable", key_s(k), fz));
             }
+            if let Some(m) = provided_methods_fail(d, k, fz, full) {
+                cx.fail("new", format!("{kind} [{hist}] {m}"));
+            }
         }
     }
     // enumeration = exactly the live entries
@@ -456,6 +481,15 @@ fn ask(d: &dyn Dictionary, res: &str, qkeys: &[Key], rng: &mut Rng) -> (Vec<Stri
                 }
                 qs.push(format!("L,{},{},{}", key_s(k), n, if fz { "f" } else { "s" }));
                 ans.push(obs_s(&lookup(d, k, n_of(n), fz)));
+            }
+            // the provided trait methods, now and then
+            if rng.chance(1, 4) {
+                qs.push(format!("P,{},{}", key_s(k), if fz { "f" } else { "s" }));
+                ans.push(obs_s(&first_phrase(d, k, fz)));
+            }
+            if rng.chance(1, 4) {
+                qs.push(format!("A,{},{}", key_s(k), if fz { "f" } else { "s" }));
+                ans.push(obs_s(&all_phrases(d, k, fz)));
             }
         }
     }
@@ -709,6 +743,9 @@ fn run_trie(cx: &mut Ctx, p: &Pools, rng: &mut Rng, script: Option<(Vec<Key>, Ve
             if got != want {
                 cx.fail("new", format!("trie [{es_s}] lookup {} fuzzy={}: got {} expected {}", key_s(k), fz, obs_s(&full), obs_s(&want)));
             }
+            if let Some(m) = provided_methods_fail(&t, k, fz, &full) {
+                cx.fail("new", format!("trie [{es_s}] {m}"));
+            }
             for n in NS {
                 let part = lookup(&t, k, n_of(n), fz);
                 let nn = n_of(n).min(full.len());
@@ -844,6 +881,9 @@ fn run_layered(cx: &mut Ctx, p: &Pools, rng: &mut Rng, len: usize) {
                 // stable order: an identically built dictionary and a second call give the same sequence
                 if lookup(&twin, k, usize::MAX, fz) != full || lookup(&lay, k, usize::MAX, fz) != full {
                     cx.fail("new", format!("lay [{hs}] lookup {} fuzzy={}: order is not stable for equal inputs", key_s(k), fz));
+                }
+                if let Some(m) = provided_methods_fail(&lay, k, fz, &full) {
+                    cx.fail("new", format!("lay [{hs}] {m}"));
                 }
                 for n in [0usize, 1, 2, 3] {
                     let part = lookup(&lay, k, n, fz);
